@@ -260,7 +260,7 @@ class Sim:
     MAX_STEPS = 2_000_000
 
     def __init__(self, m, t=None, prss=True, sec_param=30, no_barrier=False, seed=0,
-                 schedule=None, numpy=False, record=True, options=None):
+                 schedule=None, numpy=False, record=True, options=None, cli_threshold=None):
         _ensure(numpy=numpy)
         self.m = m
         self.t = (m - 1) // 2 if t is None else t
@@ -294,6 +294,9 @@ class Sim:
         self.write_events = 0
         self._chunk_i = 0
         self._saved = None
+        # cli_threshold: threshold given "on the command line" (options.threshold); when it differs from
+        # t the program assigns mpc.threshold = t before start, as e.g. demos/parallelsort.py does
+        self.cli_threshold = cli_threshold
         self._install()
         self._make_runtimes(sec_param, no_barrier, options)
 
@@ -372,7 +375,11 @@ class Sim:
                 parties = [rtm.Party(j, 'sim', 0) for j in range(self.m)]
                 asyncio.get_event_loop = lambda i=i: self.loops[i]
                 self.current = i
+                if self.cli_threshold is not None:
+                    opts.threshold = self.cli_threshold
                 rt = rtm.Runtime(i, parties, opts)
+                if self.cli_threshold is not None and self.cli_threshold != self.t:
+                    rt.threshold = self.t  # public setter, before the connections are made
                 assert rt._loop is self.loops[i]
                 self.runtimes.append(rt)
         finally:
